@@ -227,7 +227,9 @@ theorem convert_constant_set (k : String) (v : Json) (m : Mapping) (kvs : Obj) (
   `stepViolations m before after` (Spec/ConvertSpec.lean) lists the clauses of the documented contract of one mapping
   application that a pair of documents violates: deleted, constant, move (dotted paths, the rename idiom), function
   (arguments as the entries written before left them), nested `._mapper` (a sub-document, every sub-document of a
-  list; `None` / absent stay), frame.  The driver evaluates it on what the real code returned.  Here: the model of
+  list; `None` / absent stay), frame — with the precedence rules when several entries touch one key (a move wins
+  over a `._mapper` entry, a Constant and a `._mapper` entry act in the order written, a function sees the Constant
+  written before it).  The driver evaluates it on what the real code returned.  Here: the model of
   `_convert` satisfies ALL of it, for every mapping that is a Python dict (`wfMapping`: a key occurs once per nesting
   level), whatever user functions its `FunctionCall` entries carry, and every JSON value. -/
 
@@ -318,6 +320,29 @@ theorem step_contract_sensitive_example :
     ∧ (stepViolations exStepMapping exStepBefore (exStepAfter (.float 5 2) (.int 7) (.int 5) (.str "q") (.int 6) [])).length = 2
     ∧ (stepViolations exStepMapping exStepBefore
         (exStepAfter (.float 5 2) (.int 7) (.int 5) (.str "q") (.int 5) [("o", .null)])).length = 1 := by
+  decide
+
+/-- precedence when a Constant and a `._mapper` entry share a key (entries act in the order written; the nested
+    conversion reads the sub-document that was there BEFORE the step): `s`: Constant then `._mapper` → the converted
+    sub-document wins; `p`: `._mapper` then Constant → the constant wins; `q`: Constant then `._mapper` on an absent
+    sub-document → the constant stays.  Each wrong outcome is reported. -/
+def exPrecMapping : Mapping :=
+  [("s", .const (.int 0)), ("s", .sub [("t", .const (.int 1))]),
+   ("p", .sub [("t", .const (.int 1))]), ("p", .const (.int 0)), ("q", .const (.int 9)), ("q", .sub [])]
+
+def exPrecBefore : Json := .obj [("s", .obj [("u", .int 0)]), ("p", .obj [("u", .int 0)])]
+
+theorem step_contract_precedence_example :
+    wfMapping exPrecMapping = true
+    ∧ sameResult (convert exPrecMapping exPrecBefore)
+        (.ok (.obj [("s", .obj [("u", .int 0), ("t", .int 1)]), ("p", .int 0), ("q", .int 9)])) = true
+    ∧ (stepViolations exPrecMapping exPrecBefore
+        (.obj [("s", .obj [("u", .int 0), ("t", .int 1)]), ("p", .int 0), ("q", .int 9)])).length = 0
+    ∧ (stepViolations exPrecMapping exPrecBefore (.obj [("s", .int 0), ("p", .int 0), ("q", .int 9)])).length = 1
+    ∧ (stepViolations exPrecMapping exPrecBefore
+        (.obj [("s", .obj [("u", .int 0), ("t", .int 1)]), ("p", .obj [("u", .int 0), ("t", .int 1)]), ("q", .int 9)])).length = 1
+    ∧ (stepViolations exPrecMapping exPrecBefore
+        (.obj [("s", .obj [("u", .int 0), ("t", .int 1)]), ("p", .int 0)])).length = 1 := by
   decide
 
 /-! ### start versions below 1: the documentation ("The version is expected to start with 1", field `version:
